@@ -72,7 +72,7 @@ def handle (s : St) (op : String) (args : List Sexp) : Option (St × String) := 
     | "isb", [t] => let t ← t.toInt?; pure (s, okBool (c.isB t))
     | "ishol", [t] => let t ← t.toInt?; pure (s, okBool (c.isHol t))
     | "adjust", [a, t] => let a ← adjOf c a; let t ← t.toInt?; pure (s, okInt (c.adjust a t))
-    | "add", [a, t, n] =>
+    | "add", [a, t, n] | "bump", [a, t, n] =>   -- Calendar.dt_bump(t, 'nb', adj) is add(t, n, adj) (_drange.py:590-595)
         let a ← adjOf c a; let t ← t.toInt?; let n ← n.toInt?
         if n = 0 && c.isHol (c.adjust a t) then pure (s, "err Other")   -- real code: endless loop
         else pure (s, resInt (c.add a t n))
